@@ -509,5 +509,5 @@ def run_case(case: dict[str, Any]) -> Outcome:
 
 
 def main(chk: Check) -> None:
-    chk.explore("histories", histories(), run_case, quick=210, thorough=4000)
-    chk.explore("sites", sites, run_site, quick=330, thorough=6000)
+    chk.explore("histories", histories(), run_case, quick=420, thorough=4000)
+    chk.explore("sites", sites, run_site, quick=660, thorough=6000)
